@@ -5,7 +5,8 @@
 From PV Require Import Base.Prelude C03.Model C03.Spec C03.Guard C03.Proofs C03.Run C03.Table.
 
 (* soundness of the guard for ALL worlds of the fault model: any base answers respecting [opt], any vanish index of
-   the process, any vanish indexes of OTHER processes, any SET of refused accesses (single faults and every
+   the process -- whole directory or half-removed (only the entries below /proc/<pid> go, issue 2418) --, any
+   vanish indexes of OTHER processes, any SET of refused accesses (single faults and every
    two-fault sequence included), any listing sizes and contents, any process tree: a guarded script returns a
    value or raises NoSuchProcess -- and then the process is gone --, ZombieProcess or AccessDenied, with the
    object's own pid; nothing else escapes *)
@@ -26,7 +27,7 @@ Print Assumptions C03_analysis_sound.
    oneshot() blocks around them (first exception leaves the block / every call in try-except psutil.Error), in
    every world where the exe/cwd links may report ENOENT (kernel thread, zombie), descriptors, threads and
    smaps_rollup may disappear under a live process and the files outside procfs may be missing *)
-Theorem C03_linux_methods_sound : forall w, base_ok opt_links w ->
+Theorem C03_linux_methods_sound : forall w, base_ok opt_half w ->
   forall p, In p (block_scripts ++ linux_scripts) ->
   forall s, s_cache s = false -> allowed (fst (run w p s)) (gone w (snd (run w p s))).
 Proof. exact linux_methods_sound. Qed.
@@ -35,20 +36,21 @@ Print Assumptions C03_linux_methods_sound.
 (* parent(), parents(), children(), children(recursive=True), process_iter(attrs) -- in worlds where the OTHER
    processes (parent, children, listed pids) may vanish at any access too: the same, except that NoSuchProcess /
    ZombieProcess / AccessDenied raised by a query on another Process object carries that process's pid *)
-Theorem C03_tree_methods_sound : forall w, base_ok opt_links w -> forall p, In p tree_scripts ->
+Theorem C03_tree_methods_sound : forall w, base_ok opt_half w -> forall p, In p tree_scripts ->
   forall s, s_cache s = false -> allowed_tree (fst (run w p s)) (gone w (snd (run w p s))).
 Proof. exact tree_methods_sound. Qed.
 Print Assumptions C03_tree_methods_sound.
 
 (* wait(timeout=0) on a non-child (no /proc access: os.waitpid + os.kill(pid, 0)): additionally TimeoutExpired,
    only while the process is still there *)
-Theorem C03_wait_sound : forall w, base_ok opt_links w ->
+Theorem C03_wait_sound : forall w, base_ok opt_half w ->
   forall s, s_cache s = false -> allowed_wait (fst (run w f_wait s)) (gone w (snd (run w f_wait s))).
 Proof. exact wait_sound. Qed.
 Print Assumptions C03_wait_sound.
 
-(* once the process is gone every OS-consulting query raises NoSuchProcess with the object's pid *)
-Theorem C03_gone_sticky : forall w, base_ok opt_links w -> forall p, In p consulting_scripts ->
+(* once the process is gone -- its directory removed or half-removed -- every OS-consulting query (cwd(), exe(), ppid()
+   included) raises NoSuchProcess with the object's pid *)
+Theorem C03_gone_sticky : forall w, base_ok opt_half w -> forall p, In p consulting_scripts ->
   forall s, s_cache s = false -> gone w s = true -> fst (run w p s) = RExc (XNSP Self).
 Proof. exact gone_sticky. Qed.
 Print Assumptions C03_gone_sticky.
@@ -63,29 +65,35 @@ Theorem C03_cached_accessors : forall f body, In (f, body) cached_table ->
 Proof. exact cached_accessors. Qed.
 Print Assumptions C03_cached_accessors.
 (* ... and is_running() / wait() answer (False / None) instead of raising once the process is gone *)
-Theorem C03_gone_exempt : forall w, base_ok opt_links w -> forall p, In p [ f_is_running; wait_body ] ->
+Theorem C03_gone_exempt : forall w, base_ok opt_half w -> forall p, In p [ f_is_running; wait_body ] ->
   forall s, s_cache s = false -> gone w s = true -> fst (run w p s) = RVal.
 Proof. exact gone_exempt. Qed.
 Print Assumptions C03_gone_exempt.
 
 (* the harness's worlds (all four base kinds, every fault schedule) are worlds of these theorems *)
-Theorem C03_worlds_in_fault_model : forall y kind v d ov ln gu, (kind <= 3)%nat ->
-  base_ok opt_links (mk_world y kind v d ov ln gu).
-Proof. exact base_ok_worlds_links. Qed.
+Theorem C03_worlds_in_fault_model : forall y kind v h d ov ln gu, (kind <= 3)%nat ->
+  base_ok opt_half (mk_world y kind v h d ov ln gu).
+Proof. exact base_ok_worlds_half. Qed.
 Print Assumptions C03_worlds_in_fault_model.
 
-(* ---- repaired defects (commits 1c63e73, 4ee76b0, a4fac6f): the scripts of the code before the repairs
+(* ---- repaired defects (commits 1c63e73, 4ee76b0, a4fac6f, 1195393): the scripts of the code before the repairs
         break the property on single-refusal schedules *)
 Theorem C03_legacy_exe_kthread_refuted :
-  fst (run (mk_world y0 1 None [1%nat] [] true true) legacy_f_exe st0) = RExc XFnf.
+  fst (run (mk_world y0 1 None false [1%nat] [] true true) legacy_f_exe st0) = RExc XFnf.
 Proof. exact legacy_exe_kthread_refuted. Qed.
 Print Assumptions C03_legacy_exe_kthread_refuted.
 Theorem C03_legacy_children_refuted :
-  fst (run (mk_world y0 0 None [5%nat] [] true true) legacy_f_children st0) = RExc XPerm.
+  fst (run (mk_world y0 0 None false [5%nat] [] true true) legacy_f_children st0) = RExc XPerm.
 Proof. exact legacy_children_refuted. Qed.
 Print Assumptions C03_legacy_children_refuted.
 Theorem C03_legacy_ppid_refuted :
-  let w := mk_world y0 0 None [0%nat] [] true true in
+  let w := mk_world y0 0 None false [0%nat] [] true true in
   fst (run w legacy_f_ppid st0) = RExc (XNSP Self) /\ gone w (snd (run w legacy_f_ppid st0)) = false.
 Proof. exact legacy_ppid_refuted. Qed.
 Print Assumptions C03_legacy_ppid_refuted.
+(* commit 1195393: with the probe on /proc/<pid> itself cwd() answered '' for a half-removed process *)
+Theorem C03_legacy_cwd_half_removed_refuted :
+  let w := mk_world y0 0 (Some 0%nat) true [] [] true true in
+  fst (run w legacy_dir_i_cwd st0) = RVal /\ gone w (snd (run w legacy_dir_i_cwd st0)) = true.
+Proof. exact legacy_cwd_half_removed_refuted. Qed.
+Print Assumptions C03_legacy_cwd_half_removed_refuted.
